@@ -303,6 +303,14 @@ func GenInput(seed int64, i int, corpus [][]byte) Input {
 			return adversarial(r, i/6)
 		}
 		b := corpus[r.Intn(len(corpus))]
+		if r.Intn(2) == 0 {
+			// an inner mismatch at a nested position (Cbor_Nest.tla), the enclosing items staying exact
+			for try := 0; try < 8; try++ {
+				if nb, ok := nestedMismatch(r, corpus[r.Intn(len(corpus))]); ok && len(nb) <= maxInput {
+					return Input{"nested-inner-mismatch", nb}
+				}
+			}
+		}
 		for k := r.Intn(3); k > 0; k-- {
 			b = mutate(r, b)
 		}
